@@ -29,6 +29,57 @@ def run_pan(chk, P, L, roots, what, floor_sites, floor_fns, only=None):
         "entry_points": roots, "functions_in_closure": len(analysed), "panic_capable_sites": len(sites), "discharged": n_ok,
         "external_callees": len(ext), "unclassified_external_callees": unknown,
     }
+    # index for the thorough tier's cross-check against clippy's restriction lints
+    idx = chk.extra.setdefault("_pan_index", {"sites": [], "bodies": []})
+    idx["sites"].extend([[s.span["file"], s.span["line"]] for s in sites])
+    for n in analysed:
+        b = P.f.bodies[n]
+        idx["bodies"].append([b.file, b.span["line"], b.span["eline"], n])
     chk.floor("PAN", "%s: functions in call-graph closure" % what, len(analysed), floor_fns)
     chk.floor("PAN", "%s: panic-capable sites inventoried" % what, len(sites), floor_sites)
     return res
+
+
+CLIPPY_LINTS = ["indexing_slicing", "unwrap_used", "expect_used", "panic", "todo", "unreachable", "unimplemented", "arithmetic_side_effects", "string_slice"]
+
+
+def clippy_crosscheck(chk, repo):
+    """Thorough tier: the panic inventory must be a superset of what clippy's opt-in restriction
+    lints flag inside the analysed functions (guards against holes in the inventory)."""
+    import json
+    import os
+    import subprocess
+    idx = chk.extra.get("_pan_index")
+    if not idx:
+        return
+    here = os.path.dirname(os.path.dirname(os.path.dirname(os.path.dirname(os.path.abspath(__file__)))))
+    env = dict(os.environ, CARGO_TARGET_DIR=os.path.join(here, ".cache", "clippy-target"), CARGO_NET_OFFLINE="true")
+    cmd = ["cargo", "+nightly", "clippy", "--offline", "--lib", "--message-format=json", "--"] + [x for l in CLIPPY_LINTS for x in ("-W", "clippy::" + l)]
+    p = subprocess.run(cmd, cwd=repo, env=env, stdout=subprocess.PIPE, stderr=subprocess.DEVNULL, text=True)
+    hits = []
+    for line in p.stdout.splitlines():
+        try:
+            m = json.loads(line)
+        except ValueError:
+            continue
+        if m.get("reason") != "compiler-message":
+            continue
+        msg = m["message"]
+        code = (msg.get("code") or {}).get("code") or ""
+        if code.replace("clippy::", "") not in CLIPPY_LINTS:
+            continue
+        for sp in msg["spans"]:
+            if sp["is_primary"]:
+                hits.append((sp["file_name"], sp["line_start"], sp["line_end"], code))
+    sites = set((f, l) for f, l in idx["sites"])
+    missing = []
+    inside = 0
+    for f, l0, l1, code in hits:
+        if not any(bf == f and b0 <= l0 <= b1 for bf, b0, b1, n in idx["bodies"]):
+            continue
+        inside += 1
+        if not any((f, l) in sites for l in range(l0, l1 + 1)):
+            missing.append("%s:%d %s" % (f, l0, code))
+    chk.require(bool(hits), "PAN", "PAN:clippy-crosscheck:ran", "%d clippy restriction hits, %d inside analysed functions" % (len(hits), inside), "clippy produced no diagnostics (cross-check did not run)")
+    chk.require(not missing, "PAN", "PAN:clippy-crosscheck:inventory-is-superset", "every clippy hit inside an analysed function is in the panic inventory", "clippy flags sites the inventory does not contain: %s" % missing[:6])
+    chk.analysed["clippy_crosscheck"] = {"hits": len(hits), "inside_analysed_functions": inside, "missing_from_inventory": missing}
